@@ -135,28 +135,63 @@ def run_cases(mod, modname, cases_iter, jobs, budget_s, chunk=8):
     t0 = time.time()
     complete = True
     ctx = multiprocessing.get_context('fork')
-    with cf.ProcessPoolExecutor(max_workers=jobs, mp_context=ctx, initializer=_worker_init) as ex:
-        pending = set()
-        it = chunked(cases_iter, chunk)
-        exhausted = False
-        while True:
-            while not exhausted and len(pending) < jobs * 3:
-                if time.time() - t0 > budget_s:
-                    exhausted = True
-                    complete = False
+    it = chunked(cases_iter, chunk)
+    exhausted = False
+    redo = []            # chunks whose worker pool broke (an interpreter-level crash): run again
+    died = {}            # chunk key -> how often a pool broke while it was outstanding
+    restarts = 0
+    while True:
+        broken = False
+        with cf.ProcessPoolExecutor(max_workers=jobs, mp_context=ctx,
+                                    initializer=_worker_init) as ex:
+            pending = {}
+            while True:
+                while len(pending) < jobs * 3:
+                    if redo:
+                        c = redo.pop()
+                    elif exhausted:
+                        break
+                    elif time.time() - t0 > budget_s:
+                        exhausted = True
+                        complete = False
+                        break
+                    else:
+                        try:
+                            c = next(it)
+                        except StopIteration:
+                            exhausted = True
+                            break
+                    pending[ex.submit(_run_chunk, modname, c)] = c
+                if not pending:
                     break
-                try:
-                    c = next(it)
-                except StopIteration:
-                    exhausted = True
+                done, _ = cf.wait(list(pending), return_when=cf.FIRST_COMPLETED)
+                for f in done:
+                    c = pending.pop(f)
+                    try:
+                        results = f.result()
+                    except cf.process.BrokenProcessPool:
+                        # a worker process died (not an exception of the code under test, which
+                        # is pure Python and is caught inside the worker): everything that was
+                        # outstanding is run again in a fresh pool, a chunk at most twice
+                        broken = True
+                        for c2 in [c] + list(pending.values()):
+                            key = json.dumps(c2, sort_keys=True, default=str)
+                            died[key] = died.get(key, 0) + 1
+                            if died[key] > 2:
+                                raise
+                            redo.append(c2)
+                        pending.clear()
+                        break
+                    for r in results:
+                        agg.add(r)
+                if broken:
                     break
-                pending.add(ex.submit(_run_chunk, modname, c))
-            if not pending:
-                break
-            done, pending = cf.wait(pending, return_when=cf.FIRST_COMPLETED)
-            for f in done:
-                for r in f.result():
-                    agg.add(r)
+        if not broken:
+            break
+        restarts += 1
+        agg.stats['harness.worker_pool_restarts'] = restarts
+        if restarts > 3:
+            raise RuntimeError('worker pool broke %d times' % restarts)
     return agg, complete, time.time() - t0
 
 
